@@ -85,6 +85,24 @@ def run(repo: Repo, rep: Report, tier: str) -> None:
                     gs = [norm(t) for t, pol in guard_chain(m, u, pm) if pol]
                     ok = any("can_route_network(network_id, wire_color)" in g for g in gs)
                     rep.check(ok, "C12-R2", f"{m.short}: an existing relay is offered only after can_route_network", "; ".join(gs)[:150] or "unguarded", m.loc(u))
+    # the same obligation for a relay obtained through a lookup helper instead of a loop: a method that routes one network (it has `network_id`) and returns a node
+    # a lookup handed it offers an existing relay too
+    LOOKUPS = ("find_relay_near", "_get_relay_node_by_id")
+    for m in net.methods.values():
+        if "network_id" not in m.params or m.name in LOOKUPS:
+            continue
+        du_ = DefUse(m)
+        pm = parents_map(m.node)
+        for r_ in [x for x in walk_local(m.node) if isinstance(x, ast.Return) and isinstance(x.value, ast.Name)]:
+            srcs = [v for v in du_.value_exprs(r_.value.id) if isinstance(v, ast.Call) and (call_name(v) in LOOKUPS or norm(v.func) == "self.relay_nodes.get")]
+            srcs += [v for v in du_.value_exprs(r_.value.id) if isinstance(v, ast.Subscript) and norm(v.value) == "self.relay_nodes"]
+            if not srcs:
+                continue
+            n_sites += 1
+            gs = [norm(t) for t, pol in guard_chain(m, r_, pm) if pol]
+            ok = any(f"{r_.value.id}.can_route_network(network_id, wire_color)" in g for g in gs)
+            rep.check(ok, "C12-R2", f"{m.short}: an existing relay is offered only after can_route_network", "; ".join(gs)[:150] if ok else
+                      f"a relay found by {call_name(srcs[0]) if isinstance(srcs[0], ast.Call) else 'table lookup'} is returned under `{'; '.join(gs)[:110] or 'no test'}`: a pole that already carries another network on that colour joins the two networks", m.loc(r_))
     rep.floor("C12-R2", "relay reuse sites", n_sites, 2)
     rs = net.methods["route_signal"]
     ok = any(isinstance(n, ast.For) and "self._find_path_through_existing_relays(" in canon(rs).text(n.iter) and any(call_name(x) == "add_network" for x in calls_in(n)) for n in walk_local(rs.node))
